@@ -48,6 +48,8 @@ Record price_use := mkPriceUse { pu_in : string; pu_callee : string; pu_handling
 Record handler := mkHandler {
   h_module : string; h_name : string; h_msg : string;
   h_mints : bool;                        (* the handler can reach bank.MintCoins *)
+  h_ctl_opaque : bool;                   (* a writing call the walk does not enter reads the breaker / ESM
+                                            status itself: the row may under-report control checks *)
   h_items : list item;
   h_price : list price_use               (* every price call site it can reach, and each link to it *)
 }.
